@@ -27,7 +27,7 @@ func v2(p string) string {
 func checkC04(e *RunEnv) *CheckResult {
 	paths := []string{"a", "d/x", "d/y", "d/s/z", "ad/x", "d-x", "d0", "a b", "d/.goit", "big"}
 	singles := []string{"big", "a", "d/x", "d/y", "d/s/z", "ad/x", "d-x", "d0", "a b", "d", "d/s", "ad", "nope", "d/nope", "d/", "./d", "./a", "d/s/."}
-	pairAlpha := []string{"a", "d", "d/x", "nope", "ad"}
+	pairAlpha := []string{"a", "d", "d/x", "nope"}
 	if e.Thorough() {
 		pairAlpha = []string{"a", "d", "d/x", "nope", "ad", "d-x", "d/s"}
 	}
@@ -43,8 +43,11 @@ func checkC04(e *RunEnv) *CheckResult {
 			argLists = append(argLists, []string{x, y})
 		}
 	}
-	seedA := append(seedS0(), Write("d0", v1("d0")), Write("a b", v1("a b")), Write("a", v1("a")), Write("d/x", v1("d/x")), Write("d/y", v1("d/y")), Write("ad/x", v1("ad/x")), Write("d-x", v1("d-x")), Write("d/s/z", v1("d/s/z")), Write("big", v1("big")))
-	seedB := append(append([]Step{}, seedA...), Run("add", "a", "d", "ad", "d-x", "d0", "a b", "big"), Run("commit", "-m", "c1"))
+	if !e.Thorough() {
+		argLists = append(argLists, []string{"d", "ad"}, []string{"ad", "d"}) // two directories in one command
+	}
+	seedA := append(seedS0(), Write("d0", v1("d0")), Write("a b", v1("a b")), Write("a", v1("a")), Write("d/x", v1("d/x")), Write("d/y", v1("d/y")), Write("ad/x", v1("ad/x")), Write("d-x", v1("d-x")), Write("d/s/z", v1("d/s/z")))
+	seedB := append(append([]Step{}, seedA...), Write("big", v1("big")), Run("add", "a", "d", "ad", "d-x", "d0", "a b", "big"), Run("commit", "-m", "c1"))
 	spec := &Spec{
 		Seeds: []Seed{{"S0+files", seedA}, {"S1+all-tracked", seedB}},
 		Depth: e.pick(3, 4),
